@@ -16,6 +16,7 @@ structure Obj where
   authed : Bool
   hasIp : Bool        -- Session.ClientIP != nil
   tornDown : Bool
+  claimed : Bool      -- Session.terminating: a TerminateSession call has taken the session on (fix 58cbf8f)
   deriving Repr, DecidableEq
 
 structure TD where
@@ -28,10 +29,12 @@ structure TD where
   stops : AMap Nat Nat
   ebpf : AMap Nat Nat
   padt : AMap Nat Nat
+  parked : AMap Nat Nat      -- TerminateSession calls held inside their PADT callback: tag → name
   deriving Repr
 
 def init (radius : Bool) : TD :=
-  { radius := radius, objs := [], live := [], byMac := [], nextID := 1, held := [], stops := [], ebpf := [], padt := [] }
+  { radius := radius, objs := [], live := [], byMac := [], nextID := 1, held := [], stops := [], ebpf := [], padt := [],
+    parked := [] }
 
 def bump (m : AMap Nat Nat) (k : Nat) : AMap Nat Nat :=
   AMap.insert m k ((AMap.lookup m k).getD 0 + 1)
@@ -47,7 +50,7 @@ def freeId (live : AMap Nat Nat) : Nat → Nat → Nat
 def mk (s : TD) (name mac : Nat) (authed hasIp : Bool) : TD × Nat :=
   if (AMap.lookup s.objs name).isSome then (s, 0) else     -- names are fresh (the harness refuses reuse)
   let id := freeId s.live s.nextID (s.live.length + 1)
-  let o : Obj := { id := id, mac := mac, user := mac, authed := authed, hasIp := hasIp, tornDown := false }
+  let o : Obj := { id := id, mac := mac, user := mac, authed := authed, hasIp := hasIp, tornDown := false, claimed := false }
   ({ s with objs := AMap.insert s.objs name o, live := AMap.insert s.live id name,
             byMac := AMap.insert s.byMac mac id, nextID := id + 1,
             held := if hasIp then name :: s.held else s.held }, id)
@@ -76,10 +79,15 @@ def cleanup (s : TD) (name : Nat) : TD :=
                          held := if o.hasIp then s.held.filter (fun n => !(n == name)) else s.held }
       removeSession s1 o.id
 
-/-- SessionTeardown.TerminateSession (no LCP callback, PADTRetries = 0: exactly one PADT) -/
+/-- the first half of TerminateSession: the session is claimed (check and mark under the session lock) and the PADT sent -/
+def claimPadt (s : TD) (name : Nat) (o : Obj) : TD :=
+  { s with padt := bump s.padt name, objs := AMap.insert s.objs name { o with claimed := true } }
+
+/-- SessionTeardown.TerminateSession (no LCP callback, PADTRetries = 0: exactly one PADT).  A session that is torn
+    down, or that another TerminateSession call is at work on, is left alone. -/
 def terminate (s : TD) (name : Nat) : TD :=
   match AMap.lookup s.objs name with
-  | some o => if o.tornDown then s else cleanup { s with padt := bump s.padt name } name
+  | some o => if o.tornDown || o.claimed then s else cleanup (claimPadt s name o) name
   | none => s
 
 inductive Op where
@@ -91,6 +99,8 @@ inductive Op where
   | termUser (user : Nat)
   | termAll
   | authFail (name : Nat)          -- what the server does on a rejected PAP: Authenticated := false, state Closed
+  | tpark (tag name : Nat)         -- a TerminateSession call run up to (and held inside) its PADT callback
+  | tresume (tag : Nat)            -- the held call goes on: cleanup
   deriving Repr, DecidableEq
 
 def step (s : TD) : Op → TD
@@ -121,6 +131,18 @@ def step (s : TD) : Op → TD
     | some o =>
       -- on a session that is already torn down the flag is never read again
       if o.tornDown then s else { s with objs := AMap.insert s.objs n { o with authed := false } }
+    | none => s
+
+  | .tpark tag n =>
+    if (AMap.lookup s.parked tag).isSome then s else
+    match AMap.lookup s.objs n with
+    | some o =>
+      if o.tornDown || o.claimed then s
+      else { claimPadt s n o with parked := AMap.insert s.parked tag n }
+    | none => s
+  | .tresume tag =>
+    match AMap.lookup s.parked tag with
+    | some n => cleanup { s with parked := AMap.erase s.parked tag } n
     | none => s
 
 def run (s : TD) (ops : List Op) : TD := ops.foldl step s
